@@ -89,8 +89,10 @@ class GroundedPrecondition:
 
             elif isinstance(precondition, UniversalPrecondition):
                 self._parameter_map = parameters_map
-                self.logger.debug("There is no need to ground universal preconditions.")
-                continue
+                self.logger.debug(
+                    "Universal preconditions are grounded per object when they are evaluated."
+                )
+                grounded_conditions.operands.add(precondition)
 
             elif isinstance(precondition, Precondition):
                 grounded_condition = Precondition(precondition.binary_operator)
@@ -101,6 +103,7 @@ class GroundedPrecondition:
                     precondition.inequality_preconditions, parameters_map
                 )
                 self._ground(precondition, grounded_condition, parameters_map)
+                grounded_conditions.operands.add(grounded_condition)
 
             else:
                 raise ValueError(
@@ -112,13 +115,16 @@ class GroundedPrecondition:
         """Validate if the equality preconditions hold.
 
         :param preconditions: the preconditions to validate.
-        :return: whether the equality preconditions hold.
+        :return: whether the equality preconditions hold (all of them for a conjunction, at least one of them for
+            a disjunction).
         """
-        return all(
-            [obj1 == obj2 for obj1, obj2 in preconditions.equality_preconditions]
-        ) and all(
-            [obj1 != obj2 for obj1, obj2 in preconditions.inequality_preconditions]
-        )
+        object_comparisons = [
+            obj1 == obj2 for obj1, obj2 in preconditions.equality_preconditions
+        ] + [obj1 != obj2 for obj1, obj2 in preconditions.inequality_preconditions]
+        if preconditions.binary_operator == "or":
+            return any(object_comparisons)
+
+        return all(object_comparisons)
 
     def _validate_numeric_expression_hold(
         self,
@@ -191,22 +197,23 @@ class GroundedPrecondition:
         :return: the grounded condition for a single object.
         """
         grounded_preconditions = Precondition(condition.binary_operator)
+        grounded_preconditions.equality_preconditions = self._ground_equality_objects(
+            condition.equality_preconditions, extended_parameter_map
+        )
+        grounded_preconditions.inequality_preconditions = self._ground_equality_objects(
+            condition.inequality_preconditions, extended_parameter_map
+        )
         tmp_action = Action()
-        tmp_action.signature = self.action.signature
-        tmp_action.signature[condition.quantified_parameter] = condition.quantified_type
-        for sub_condition in condition.operands:
-            if isinstance(sub_condition, Predicate):
-                grounded_predicate = ground_predicate(
-                    sub_condition, extended_parameter_map, self.domain, tmp_action
-                )
-                grounded_preconditions.add_condition(grounded_predicate)
-
-            elif isinstance(sub_condition, NumericalExpressionTree):
-                grounded_preconditions.add_condition(
-                    ground_numeric_calculation_tree(
-                        sub_condition, extended_parameter_map, self.domain
-                    )
-                )
+        tmp_action.signature = {
+            **self.action.signature,
+            condition.quantified_parameter: condition.quantified_type,
+        }
+        original_action = self.action
+        self.action = tmp_action
+        try:
+            self._ground(condition, grounded_preconditions, extended_parameter_map)
+        finally:
+            self.action = original_action
 
         return grounded_preconditions
 
@@ -223,56 +230,31 @@ class GroundedPrecondition:
         :return: whether the universal precondition is applicable in the given state.
         """
         if not problem_objects:
-            raise ValueError(
-                "The objects of the problem should be provided for universal preconditions."
+            self.logger.warning(
+                "The objects of the problem were not provided, "
+                "quantifying over the objects that appear in the state."
             )
+            problem_objects = state.get_state_objects()
 
         self.logger.debug(
             "Validating if the universal precondition is applicable in the state"
         )
-        is_applicable = self._validate_equality_holds(condition)
-        self.logger.debug("We assume that universal preconditions are not nested.")
+        quantified_objects = {**self.domain.constants, **problem_objects}
         extended_parameter_map = {**self._parameter_map}
-        for obj_name, obj in problem_objects.items():
-            if obj.type.name != condition.quantified_type.name:
+        for obj_name, obj in quantified_objects.items():
+            if not obj.type.is_sub_type(condition.quantified_type):
                 continue
 
             extended_parameter_map[condition.quantified_parameter] = obj_name
             grounded_precondition = self._ground_universal_condition(
                 condition, extended_parameter_map
             )
-            for sub_condition in grounded_precondition.operands:
-                if isinstance(sub_condition, GroundedPredicate):
-                    is_applicable = BinaryOperator[
-                        grounded_precondition.binary_operator
-                    ](
-                        is_applicable,
-                        self._validate_predicates_hold(
-                            sub_condition, is_applicable, condition, state
-                        ),
-                    )
+            if not self._is_condition_applicable(
+                grounded_precondition, state, problem_objects
+            ):
+                return False
 
-                elif isinstance(sub_condition, NumericalExpressionTree):
-                    is_applicable = BinaryOperator[
-                        grounded_precondition.binary_operator
-                    ](
-                        is_applicable,
-                        self._validate_numeric_expression_hold(
-                            sub_condition, is_applicable, condition, state
-                        ),
-                    )
-
-                elif isinstance(sub_condition, Precondition):
-                    is_applicable = BinaryOperator[
-                        grounded_precondition.binary_operator
-                    ](
-                        is_applicable,
-                        self._is_condition_applicable(
-                            sub_condition, state, problem_objects
-                        ),
-                    )
-
-        return is_applicable
+        return True
 
     def _is_condition_applicable(
         self,
@@ -287,7 +269,15 @@ class GroundedPrecondition:
         :param problem_objects: the objects of the problem to use for universal preconditions.
         :return: whether the condition is applicable in the given state.
         """
-        is_applicable = self._validate_equality_holds(preconditions)
+        has_object_comparisons = (
+            len(preconditions.equality_preconditions) > 0
+            or len(preconditions.inequality_preconditions) > 0
+        )
+        is_applicable = (
+            self._validate_equality_holds(preconditions)
+            if has_object_comparisons
+            else preconditions.binary_operator == "and"
+        )
         for condition in preconditions.operands:
             if isinstance(condition, GroundedPredicate):
                 is_applicable = BinaryOperator[preconditions.binary_operator](
@@ -305,16 +295,19 @@ class GroundedPrecondition:
                     ),
                 )
 
-            elif isinstance(condition, Precondition):
+            elif isinstance(condition, UniversalPrecondition):
                 is_applicable = BinaryOperator[preconditions.binary_operator](
-                    is_applicable, self._is_condition_applicable(condition, state)
+                    is_applicable,
+                    self._validate_universal_precondition(
+                        condition, state, problem_objects
+                    ),
                 )
 
-            elif isinstance(condition, UniversalPrecondition):
-                is_applicable = self._validate_universal_precondition(
-                    condition, state, problem_objects
+            elif isinstance(condition, Precondition):
+                is_applicable = BinaryOperator[preconditions.binary_operator](
+                    is_applicable,
+                    self._is_condition_applicable(condition, state, problem_objects),
                 )
-                continue
 
             else:
                 raise ValueError(f"Unknown precondition type: {type(condition)}")
